@@ -11,7 +11,7 @@ SPEC = {
              'failed holds nothing, each pool\'s usage equals the summed requirements of the holders; at every '
              'clock advance no operational idle processor holds anything; a case is one model; non-trivial = '
              'some processor waited for resources and a reservation was both kept across consecutive parts and '
-             'released'),
+             'released; also: pass-through devices feeding parallel pool users, queues in front of zero-cycle processors in series on one pool, unlimited and huge pools'),
     'floors': {'quick': {'holder_checks': 20000, 'in_process_checks': 5000, 'in_process_checks_while_shut_down': 100,
                          'reservation_kept_across_consecutive_parts': 50, 'reservation_released': 500,
                          'idle_checks': 2000},
